@@ -507,6 +507,12 @@ pub fn exec(line: &str, _model: &mut Model) -> Option<Exec> {
             let mut e = Exec::new(match &r { None => "panic".into(), Some(Ok(x)) => format!("ok {}", show_eid(x)), Some(Err(_)) => "err".into() });
             if let Some(Ok(x)) = &r {
                 if eid_well_formed(&e0) && no_panic(|| x.node()) != no_panic(|| e0.node()) { e.oracle_fail = Some("sibling endpoint has a different node part".into()); }
+                // ... and reports the new service (dtn receivers; the service is everything after "//node/")
+                if let (EndpointID::Dtn(_, _), true, None) = (&e0, eid_well_formed(&e0), &e.oracle_fail) {
+                    let got = no_panic(|| x.service_name()).flatten();
+                    let want = if s.is_empty() { None } else { Some(s.clone()) };
+                    if got != want { e.oracle_fail = Some(format!("sibling endpoint reports the service {:?}, the new service is {:?}", got, want)); }
+                }
             }
             if r.is_none() && eid_well_formed(&e0) { e.oracle_fail = Some("new_endpoint panics".into()); }
             Some(e)
